@@ -118,8 +118,8 @@ def reader_check(ctx, prop):
     n_garb = {"C06": (0, 0), "C07": (150, 1500), "C08": (200, 2000), "C09": (25, 250), "C11": (60, 600), "C12": (80, 800)}[prop][1 if big else 0]
 
     def cfgmix():
-        return {"msgmode": rng.choice((0, 0, 0, 1, 2, 3)), "validate": rng.choice((1, 1, 1, 0)), "pbf": rng.choice((1, 0)), "labelmsm": rng.choice((1, 1, 2)),
-                "streamkind": rng.choice(("min", "bytesio", "pipe"))}
+        return {"msgmode": rng.choice((0, 0, 0, 1, 2, 3)), "validate": rng.choice((1, 1, 1, 0, 3, 2)), "pbf": rng.choice((1, 0)), "labelmsm": rng.choice((1, 1, 2)),
+                "streamkind": rng.choice(("min", "bytesio", "pipe", "sock") if prop != "C06" else ("min", "bytesio", "pipe"))}
 
     def gen_small():
         for S in st.alphabet_streams(alpha_len):
@@ -151,6 +151,8 @@ def reader_check(ctx, prop):
             c = {"prop": prop, "S": S.hex(), "recipe": recipe, "plan": plans(prop, rng, S, True), "conf": 1 if prop in ("C06", "C07") else 0}
             c.update(mix)
             yield ("runs", c)
+            if prop == "C06" and k % 4 == 0:
+                yield ("runs", dict(c, streamkind="sock", conf=0))
             if prop in ("C12", "C08") and k % 3 == 0 and len(S) > 8:
                 # the same stream delivered in bursts (a serial port with timeout: read(n) may return fewer bytes before the end)
                 b = dict(c)
@@ -191,13 +193,65 @@ def reader_check(ctx, prop):
                 S = b"".join(parts)
                 yield ("runs", {"prop": prop, "S": S.hex(), "recipe": rec, "plan": [{"filter": 7, "quit": 1, "parsing": 1, "reads": 1}], "conf": 1})
 
+    def gen_tour():
+        """every synthesised boundary frame of the pool (bare-LF sentences, zero-length / bad-CRC / truncated-type RTCM3, frames holding
+        preambles, lengths at byte boundaries ...) is placed deterministically into a stream of THIS check, between ordinary frames:
+        what a check sees must not depend on the luck of the random mixtures"""
+        sp = [x for x in st.special_frames(rng) if len(x[0]) <= (300 if prop in ("C09", "C11") else 7000)]
+        simple = [x for x in pool if len(x[0]) < 60 and x not in sp][:40]
+        for k in range(0, len(sp), 3):
+            parts = []
+            for j, x in enumerate(sp[k:k + 3]):
+                parts += [simple[(k + j) % len(simple)], x]
+            parts.append(simple[(k + 7) % len(simple)])
+            pos = 0
+            rec = []
+            for fr, pp in parts:
+                rec.append({"a": pos, "b": pos + len(fr), "p": pp, "ok": -1, "dd": "", "fam": ""})
+                pos += len(fr)
+            S = b"".join(fr for fr, _ in parts)
+            c = {"prop": prop, "S": S.hex(), "recipe": rec, "plan": plans(prop, rng, S, True), "conf": 1 if prop in ("C06", "C07") else 0,
+                 "streamkind": ("min", "bytesio", "pipe")[(k // 3) % 3]}
+            yield ("runs", c)
+            if prop == "C06":
+                # the same stream through a socket (the reader wraps it): clean streams must come out the same way
+                yield ("runs", dict(c, streamkind="sock", conf=0))
+            if prop in ("C06", "C11", "C12"):
+                yield ("runs", dict(c, validate=0, msgmode=(k // 3) % 4))
+
+    def gen_long():
+        """long runs: more than a thousand consecutive frames of one protocol / rejected frames / noise bytes between two others
+        (per-frame stack or buffer growth only shows on runs no ordinary mixture contains)"""
+        from ..common import frame as _frame
+
+        n = 5000 if big else 1500
+        u1, u2 = _frame(0x05, 0x01, b"\x06\x01"), _frame(0x01, 0x03, bytes(16))
+        nm = st.nmea_line("GNGLL,5327.04319,N,00214.41396,W,223232.00,A,A")
+        rt = st.rtcm_frame(b"\x3e\xd0\x00")
+        bad = u1[:-1] + bytes((u1[-1] ^ 1,))
+        shapes = [[(u1, "UBX")] + [(nm, "NMEA")] * n + [(u2, "UBX"), (nm, "NMEA"), (u1, "UBX")],
+                  [(nm, "NMEA")] + [(u1, "UBX")] * n + [(rt, "RTCM"), (nm, "NMEA")],
+                  [(u2, "UBX")] + [(bad, "UBX")] * n + [(nm, "NMEA"), (u1, "UBX")],
+                  [(u1, "UBX"), (bytes(3 * n), "NOISE"), (nm, "NMEA")]]
+        for k, parts in enumerate(shapes):
+            pos = 0
+            rec = []
+            for fr, pp in parts:
+                rec.append({"a": pos, "b": pos + len(fr), "p": pp, "ok": 0 if pp == "NOISE" else -1, "dd": "", "fam": ""})
+                pos += len(fr)
+            S = b"".join(fr for fr, _ in parts)
+            yield ("runs", {"prop": prop, "S": S.hex(), "recipe": rec, "plan": plans(prop, rng, S, True), "conf": 0, "streamkind": ("min", "bytesio")[k % 2]})
+
     neg = negfn_for(prop)
     if prop == "C06":
         run_batch(ctx, MODULE, CFG, gen_library(), st.OBSERVERS, sigfn, neg, chunk=8000)
     if alpha_len:
         run_batch(ctx, MODULE, CFG, gen_small(), st.OBSERVERS, sigfn, neg, chunk=20000)
-    if prop in ("C09", "C07", "C06", "C12"):
+    if prop in ("C09", "C07", "C06", "C12", "C11", "C08"):
         run_batch(ctx, MODULE, CFG, gen_nested(), st.OBSERVERS, sigfn, neg, chunk=40 if prop == "C09" else 120, neg_every=7)
+    if prop != "C09":
+        run_batch(ctx, MODULE, CFG, gen_long(), st.OBSERVERS, sigfn, neg, chunk=4, neg_every=2)
+    run_batch(ctx, MODULE, CFG, gen_tour(), st.OBSERVERS, sigfn, neg, chunk=40 if prop in ("C09", "C11") else 120, neg_every=7)
     run_batch(ctx, MODULE, CFG, gen_big(), st.OBSERVERS, sigfn, neg, chunk=40 if prop in ("C09", "C11") else 120, neg_every=7)
     ctx.exhaustive = False
     ctx.extra["alphabet_max_len"] = alpha_len
